@@ -677,7 +677,8 @@ fn op_hide_reveal(c: &Value, ev: &mut Map<String, Value>) -> Result<(), String> 
     } else {
         Some((avp_from_json(&c["between"]["v"])?, json_bytes(&c["between"]["secret"])?, rv_from(&c["between"]["rv"])?))
     };
-    let o = guarded(|| {
+    // stage 1: hide and reveal directly
+    let s1 = guarded(|| {
         let mut out: Vec<(&str, Value)> = Vec::new();
         let h = a.clone().hide(&secret, &rv, &lp, &ap);
         out.push(("h", avp_to_json(&h)));
@@ -688,6 +689,23 @@ fn op_hide_reveal(c: &Value, ev: &mut Map<String, Value>) -> Result<(), String> 
         let r1 = h.clone().reveal(&secret, &rv);
         out.push(("r1", reveal_json(&r1)));
         out.push(("eq1", json!(r1.as_ref().ok() == Some(&a))));
+        (out, h)
+    });
+    let h = match s1 {
+        Ok((fields, h)) => {
+            for (k, v) in fields {
+                ev.insert(k.into(), v);
+            }
+            h
+        }
+        Err(p) => {
+            ev.insert("h".into(), p);
+            return Ok(());
+        }
+    };
+    // stage 2: through the wire (refused by the encoder when the hidden AVP no longer fits 1023 octets)
+    let s2 = guarded(|| {
+        let mut out: Vec<(&str, Value)> = Vec::new();
         let mut w = VecWriter::new();
         h.write(&mut w);
         out.push(("enc", bytes_json(&w.data)));
@@ -703,14 +721,14 @@ fn op_hide_reveal(c: &Value, ev: &mut Map<String, Value>) -> Result<(), String> 
         }
         out
     });
-    match o {
+    match s2 {
         Ok(fields) => {
             for (k, v) in fields {
                 ev.insert(k.into(), v);
             }
         }
         Err(p) => {
-            ev.insert("h".into(), p);
+            ev.insert("wire_panic".into(), p);
         }
     }
     Ok(())
